@@ -39,7 +39,8 @@ const (
 var (
 	cor   *corpus.Corpus
 	seeds []corpus.Seed // all seeds incl. shrunk file variants
-	nBase int
+	nBase int           // seeds the mutators draw from
+	nAll  int           // nBase + lattice seeds
 )
 
 func setup(env *runner.Env) error {
@@ -66,6 +67,10 @@ func setup(env *runner.Env) error {
 	}
 	seeds = append(seeds, crafted()...)
 	nBase = len(seeds)
+	// lattice seeds are part of the case list but not of the pool that the
+	// mutators draw from
+	seeds = append(seeds, lattice()...)
+	nAll = len(seeds)
 	if nBase == 0 {
 		return fmt.Errorf("empty corpus under %s", env.RepoDir)
 	}
@@ -74,15 +79,15 @@ func setup(env *runner.Env) error {
 
 func numCases(env *runner.Env) int {
 	if env.Tier == "thorough" {
-		return nBase + 2000000
+		return nAll + 2000000
 	}
-	return nBase + 30000
+	return nAll + 30000
 }
 
 func init() {
 	runner.Register(&runner.Prop{
 		ID: "C04",
-		Rule: "case = one input byte string x all operations. Inputs: every corpus seed unmutated (repo testdata files, mdat-shrunk variants, every box cut out by the reference walker, upstream fuzz seeds, crafted cross-box layouts) " +
+		Rule: "case = one input byte string x all operations. Inputs: every corpus seed unmutated (repo testdata files, mdat-shrunk variants, every box cut out by the reference walker, upstream fuzz seeds, crafted cross-box layouts: remove-all-of-type, mdat moved, extreme and back-pointing 64-bit mdat sizes), the version x flags x count x truncation lattice of 30 count-bearing box types in the context of the smallest file containing them, " +
 			"then 1..3 stacked structure-aware hostile mutations of a PRNG-chosen seed (word substitution with boundary values biased to count/length offsets, version/flags, size-field corruption, stale ancestor sizes, truncation, child removal/duplication/reordering, remove-all-of-type, renaming, largesize rewrite, wrapping, deep nesting, splicing from a second seed, mass duplication). " +
 			"Operations per input: DecodeFile {normal,lazy} x flags {0,ISM,StartOnMoof,both}, DecodeFileSR x flags, DecodeBox, DecodeBoxSR, DecodeBoxLazyMdat, DecodeFile/DecodeBox through 1-byte and short-chunk readers; on every decoded structure Size, Info at '', all:1, all:2 and a box-specific level string, Encode and EncodeSW (files: both FragEncModes); 1 in 50 inputs through the mp4ff-info binary. " +
 			"Oracle: no panic, no worker death, cpu <= 2 s + 20 us/byte (RUSAGE delta, re-measured 2x before reporting; hard hangs via the watchdog), bytes allocated <= 8 MiB + 1024 B/byte (runtime/metrics /gc/heap/allocs:bytes delta, re-measured). " +
@@ -112,7 +117,7 @@ type detail struct {
 func run(c *runner.Ctx, idx int) {
 	var in []byte
 	var name, desc string
-	if idx < nBase {
+	if idx < nAll {
 		in, name, desc = seeds[idx].Data, seeds[idx].Name, "none"
 	} else {
 		s := pickSeed(c.Rand)
@@ -124,7 +129,7 @@ func run(c *runner.Ctx, idx int) {
 			desc += "; cap 256KiB"
 		}
 	}
-	exercise(c, in, name, desc, c.Rand.Intn(toolSampleRate) == 0, idx < nBase)
+	exercise(c, in, name, desc, c.Rand.Intn(toolSampleRate) == 0, idx < nAll)
 }
 
 // pickSeed prefers small seeds (7 of 8 draws are re-drawn, up to 6 times, while the seed is
@@ -587,7 +592,7 @@ func exercise(c *runner.Ctx, in []byte, name, desc string, tool, full bool) {
 	if len(in) >= 8 {
 		c.Nontrivial(runner.Hash64(in))
 	}
-	if c.WantSample() && c.Idx >= nBase {
+	if c.WantSample() && c.Idx >= nAll {
 		c.Sample(map[string]interface{}{"seed": name, "mutation": desc, "len": len(in), "accepted_by_paths": m.accepted, "first_bytes_hex": fmt.Sprintf("%x", in[:minInt(len(in), 48)])})
 	}
 }
